@@ -62,8 +62,26 @@ struct SB_ : state_machine_def<SB_> {
   template<class F,class Ev> void no_transition(Ev const&,F&,int){ g_log += "NT "; }
 };
 typedef BE<SB_> SB;
+#if !IS_MP11
+// back: a Kleene row with a Defer action, hit by an event whose type is mentioned NOWHERE in the machine: defer_event(any) finds no event
+// type of the machine's event set to store it as, so the event is reported through no_transition - once per region - and nothing is stored
+struct stranger { int v; stranger(int x = 0) : v(x) {} };
+struct DK_ : state_machine_def<DK_> {
+  typedef int activate_deferred_events;
+  struct Busy : state<> {}; struct Idle : state<> {};
+  typedef Busy initial_state;
+  struct transition_table : mpl::vector< Row<Busy, boost::any, none, Defer, none>, Row<Busy, nxt, Idle>, Row<Idle, other_ev, none, ActOther, none> > {};
+  template<class F,class Ev> void no_transition(Ev const&,F&,int){ g_log += "NT "; }
+};
+typedef BE<DK_> DK;
+#endif
 int main(int argc, char** argv) {
   if (argc > 1) g_only = argv[1];
+#if !IS_MP11
+  { DK m; m.start(); g_log.clear(); m.process_event(stranger(5)); const std::string first = g_log;
+    m.process_event(other_ev(9)); m.process_event(nxt());
+    report("kleene-defer.event-outside-the-event-set-is-reported-not-stored", first == "NT " && g_log == "NT exact-other:9 ", "C18,C05,C06", "after stranger=[" + first + "] in the end=[" + g_log + "]"); }
+#endif
   { SB m; m.start(); g_log.clear(); m.process_event(pderived(7));
     report("derived-event.single-base-class-row.behaviours-see-the-object-itself", g_log == "g707 x707 a707 n707 ", "C18,C13", "log=[" + g_log + "]"); }
   { TopM m; m.start(); g_log.clear(); m.process_event(derived_ev(11));
